@@ -141,3 +141,11 @@ Theorem c06_same_name_needs_an_element :
 Proof. exact C06c.c06_same_name_needs_an_element. Qed.
 Print Assumptions c06_same_name_needs_an_element.
 
+
+(* the code sorts the enumerated keys of a map by byte order, right after enumerating them, wherever it enumerates one on the evaluation path *)
+From Bexpr Require Import GoTables TieOrder.
+Theorem c06_code_visits_maps_in_key_order :
+  forallb (fun r => negb (String.eqb (iter_file r) "evaluate.go") || String.eqb (iter_class r) "sorted-bytewise") GoTables.go_map_iteration = true
+  /\ existsb (fun r => String.eqb (iter_file r) "evaluate.go" && String.eqb (iter_class r) "sorted-bytewise") GoTables.go_map_iteration = true.
+Proof. exact (conj TieOrder.evaluation_visits_maps_in_key_order TieOrder.evaluation_enumerates_a_map). Qed.
+Print Assumptions c06_code_visits_maps_in_key_order.
